@@ -66,6 +66,12 @@ static std::vector<uint32_t> gen_syms(Rng &r, int kind, int n, uint32_t maxv) {
     case 5: { uint32_t a = (uint32_t)r.below((uint64_t)maxv + 1), b = maxv; int pct = (int)r.range(1, 99);
               for (auto &x : s) x = r.chance(pct) ? a : b; } break;
     case 6: for (auto &x : s) { uint64_t u = r.next(); int sh = (int)r.below(24); x = (uint32_t)((u >> 40 >> sh) % ((uint64_t)maxv + 1)); } break;
+    case 8: { // one dominant value + k distinct singletons: the coded size is far above the Shannon entropy of the data because every
+              // used symbol is forced to probability >= 1/precision (stresses the size of the rANS write area in StartEncoding)
+              uint32_t c = (uint32_t)r.below(4); for (auto &x : s) x = c; int k = (int)std::min<int64_t>(r.range(40, 127), n / 4);
+              for (int j = 0; j < k; j++) s[r.below(n)] = std::min<uint32_t>(maxv, 4 + (uint32_t)j); } break;
+    case 9: { // one-bit values + a few values of every bit length 2..31 (same stress for the tag stream of the tagged scheme)
+              for (auto &x : s) x = (uint32_t)r.below(2); for (int b = 2; b <= 31 && b < n; b++) s[r.below(n)] = std::min<uint32_t>(maxv, (1u << (b - 1)) + (uint32_t)r.below(1u << (b - 1))); } break;
     default: for (int i = 0; i < n; i++) { int k = i % 34; uint64_t v = k ? (((uint64_t)1 << (k - 1)) + r.below((uint64_t)1 << (k - 1))) : 0; s[i] = (uint32_t)std::min<uint64_t>(v, maxv); } break;
   }
   return s;
@@ -373,6 +379,13 @@ int main(int argc, char **argv) {
     if (kind == 4 && maxv < (uint32_t)n) maxv = n;
     std::vector<uint32_t> s = gen_syms(r, kind, n, maxv);
     enc_case(o, r, s, nc, (int)r.range(-1, 1), r.chance(30) ? -1 : (int)r.range(0, 10), 2);
+  }
+  // 2b. dominated arrays long enough that a write area sized from the ideal entropy (instead of the entropy under the
+  //     quantised table) would be too small: n >= ~70000 at 12-bit precision
+  for (int i = 0; i < (thorough ? 12 : 3); i++) {
+    int n = (int)r.range(100000, thorough ? 220000 : 130000); int kind = i % 3 == 2 ? 9 : 8;
+    std::vector<uint32_t> s = gen_syms(r, kind, n, kind == 9 ? 0x7fffffffu : 1000);
+    enc_case(o, r, s, 1, kind == 9 ? 0 : (i % 3 == 0 ? 1 : -1), (int)r.range(0, 10), 1);
   }
   if (thorough) {
     // up to 2^18 distinct symbols (and beyond: the raw scheme must refuse more than 2^18 - 1)
